@@ -608,4 +608,35 @@ theorem witness_rows_are_rr_solution (fuel : Nat) :
   · rw [(gasLiqEqZ_rows _ _ _).1, hb]; simp only [rows, Num.real_one]; norm_num
   · rw [(gasLiqEqZ_rows _ _ _).2, hb]; simp only [rows, Num.real_one]; norm_num
 
+/-! ## 6. Non-vacuity: concrete states satisfying the hypotheses used above -/
+
+/-- a genuinely two-phase state meeting every hypothesis of §1–2 (composition, positive K, equal
+    lengths, conditions (4) and (5) both failing) -/
+example : IsComposition [1/3, 1/3, 1/3] ∧ AllPos [2, 1, 1/2] ∧ ([1/3, 1/3, 1/3] : List ℝ).length = ([2, 1, 1/2] : List ℝ).length ∧
+    ¬ ((List.zipWith (fun a b => a * b) ([1/3, 1/3, 1/3] : List ℝ) [2, 1, 1/2]).sum - 1 ≤ 0) ∧
+    ¬ (0 < 1 - (List.zipWith (fun a b => a / b) ([1/3, 1/3, 1/3] : List ℝ) [2, 1, 1/2]).sum) := by
+  refine ⟨⟨?_, by norm_num⟩, ?_, rfl, by norm_num, by norm_num⟩
+  · intro x hx; simp at hx; rw [hx]; norm_num
+  · intro x hx; simp at hx; rcases hx with rfl | rfl | rfl <;> norm_num
+
+/-- the hypotheses of `masses_conserved_partial` are met by a feed with a removed zero-mass component and
+    the two-phase rows x_gas = (4/9,1/3,2/9), x_liq = (2/9,1/3,4/9), β = ½ of z = (⅓,⅓,⅓), K = (2,1,½) (first
+    kept component has K = 2 ≠ 1) -/
+example : ∃ (m M : List ℝ) (o : MMOut ℝ), IsFeed m M ∧ o.xg.length = o.xl.length ∧ 0 ≤ o.beta ∧ o.beta ≤ 1 ∧
+    (∀ x ∈ o.xg, 0 ≤ x) ∧ (∀ x ∈ o.xl, 0 ≤ x) ∧
+    List.zipWith (fun g l => o.beta * g + (1 - o.beta) * l) o.xg o.xl = moleFrac (gather (mask m) m) (gather (mask m) M) ∧
+    o.xg.getD 0 0 ≠ o.xl.getD 0 0 := by
+  refine ⟨[1, 0, 1, 1], [1, 5, 1, 1], ⟨[4/9, 1/3, 2/9], [2/9, 1/3, 4/9], 1/2, some [2, 1, 1/2]⟩,
+    ⟨rfl, ?_, ?_, ⟨1, by simp, by norm_num⟩⟩, rfl, by norm_num, by norm_num, ?_, ?_, ?_, by norm_num⟩
+  · intro x hx; simp at hx; rcases hx with rfl | rfl | rfl <;> norm_num
+  · intro x hx; simp at hx; rcases hx with rfl | rfl | rfl <;> norm_num
+  · intro x hx; simp at hx; rcases hx with rfl | rfl | rfl <;> norm_num
+  · intro x hx; simp at hx; rcases hx with rfl | rfl | rfl <;> norm_num
+  · have hm : mask ([1, 0, 1, 1] : List ℝ) = [true, false, true, true] := by
+      rw [mask_cons_pos _ _ one_pos, mask_cons_nonpos _ _ (lt_irrefl 0), mask_cons_pos _ _ one_pos,
+        mask_cons_pos _ _ one_pos, mask_nil]
+    rw [hm, moleFrac_real]
+    simp only [gather, Num.vdiv]
+    norm_num
+
 end TamocV.Props.C02
